@@ -242,7 +242,8 @@ GenShorthand(seed) ==
   LET c == Pick(seed, 3, 5) IN
   CASE c = 1 ->     \* condensed rule: k sub-rules; each of inputs / outputs / environments is either given k times or once (broadcast)
         LET k == 1 + Pick(seed, 4, 2)
-            shI == Chance(seed, 5, 1, 3)  shO == Chance(seed, 6, 1, 3)  shC == Chance(seed, 7, 1, 2)  hasC == Chance(seed, 8, 2, 3)
+            shO == Chance(seed, 6, 1, 3)  shC == Chance(seed, 7, 1, 2)  hasC == Chance(seed, 8, 2, 3)
+            shI == Chance(seed, 5, 1, 3) /\ ~(shO /\ (shC \/ ~hasC))      \* at least one part is given k times, otherwise the line is a single rule
             inpOf(i) == <<PlainSeg(seed, C(10, IF shI THEN 1 ELSE i))>>
             outOf(i) == <<GenOutSeg(seed, C(11, IF shO THEN 1 ELSE i))>>
             ctxOf(i) == IF hasC THEN <<SimpleEnv(seed, C(12, IF shC THEN 1 ELSE i))>> ELSE <<>>
